@@ -45,6 +45,7 @@ class Executor:
         self.loop_maps = {}
         self.unit_env = {}
         self.quant_facts = []       # ranges of the bound variables of enclosing spec quantifiers
+        self.spec_partial_ok = 0
 
     # ------------------------------------------------------------------ obligations
     def oblige(self, kind, state, goal, label=None, info=None):
@@ -61,6 +62,7 @@ class Executor:
         o = HObj("exc", cls or self.exc_class(state, cls_name))
         o.fields["args"] = VTuple(list(args))
         o.fields["__exact__"] = exact
+        o.fields["__line__"] = getattr(self, "cur_line", None)
         return state.alloc(o)
 
     def exc_class(self, state, name):
@@ -259,6 +261,8 @@ class Executor:
                 r = pyval.is_(x, y)
             elif x.kind == "opaque":
                 r = z3.BoolVal(True) if x.tag == y.tag else z3.Bool(fresh_name("is_opq"))
+            elif x.kind in ("bytes", "str") and self.spec_mode:
+                r = x.t == y.t          # in clauses `is` on immutable values means "the same value"
             elif x.kind in ("bytes", "str", "tuple"):
                 r = z3.BoolVal(True) if same_atom(x, y) else z3.Bool(fresh_name("is_val"))
             elif x.kind == "func":
@@ -313,6 +317,13 @@ class Executor:
             try:
                 r = fn(*[c[1] for c in combo])
             except _Abort:
+                if self.spec_mode and not self.spec_partial_ok:
+                    # a clause must be well-defined: the failing alternative has to be unreachable here
+                    pcs = _pc_state(state.pc[:n] + list(self.quant_facts))   # incl. guards of enclosing implies/forall
+                    if not self.prove_quick(pcs, z3.Not(g)):
+                        self.spec_mode, sm = 0, self.spec_mode
+                        self.oblige("spec-defined", pcs, simp(z3.Not(g)), info={"clause": getattr(self, "cur_clause", None)})
+                        self.spec_mode = sm
                 state.pc = state.pc[:n] + [simp(z3.Not(g))]
                 continue
             new = state.pc[n + 1:]
@@ -380,6 +391,8 @@ class Executor:
         m = getattr(self, "st_" + type(st).__name__, None)
         if m is None:
             raise Unsupported("statement %s (line %d)" % (type(st).__name__, st.lineno))
+        if not self.spec_mode and not (state.frame.module or "").startswith("specs"):
+            self.cur_line = "%s:%d" % (state.frame.module, st.lineno)
         try:
             outs = m(state, st)
         except _Abort:
@@ -784,6 +797,14 @@ class Executor:
             return cache[key]
         fr = Frame(None)
         fr.module = mod
+        if "." in name:
+            # class attribute: bare names in its expression refer to earlier attributes of the same class body
+            cname = name.split(".")[0]
+            ci = loader.get_class(mod, cname)
+            if ci is not None:
+                for n in ast.walk(expr):
+                    if isinstance(n, ast.Name) and n.id in ci.attrs and n.id != name.split(".")[1]:
+                        fr.locals[n.id] = self.module_const(state, mod, cname + "." + n.id, ci.attrs[n.id])
         state.frames.append(fr)
         try:
             self.spec_mode += 1
@@ -1178,6 +1199,15 @@ class Executor:
     def instantiate(self, state, cls, args, kwargs):
         from . import calls
         return calls.instantiate(self, state, cls, args, kwargs)
+
+
+class _PcOnly:
+    def __init__(self, pc):
+        self.pc = list(pc)
+
+
+def _pc_state(pc):
+    return _PcOnly(pc)
 
 
 class StarArgs(V):
